@@ -19,6 +19,8 @@ def kind_sort(kind):
         return z3.IntSort()
     if kind == "bool":
         return z3.BoolSort()
+    if kind == "real":
+        return z3.RealSort()
     if kind == "str":
         return z3.StringSort()
     if kind in ("ref", "enum", "py"):
